@@ -455,6 +455,29 @@ def main():
                 e['uq'] = ord(c)
                 emit(e)
 
+    # (2g) header-safe values that look like reserved words of the format: the marker of the obsolete read-name format ('UMI'),
+    #      tag keys, leading / trailing '-' and '_' - as library, as instrument and as flow-cell name
+    pool = ['UMI', 'UMIlib', 'libUMI', 'a_UMI_b', 'xUMI-1', 'SM', 'BC', 'MI', 'LY', 'Is', 'bi', 'RX-RQ', 'SM_BC_UMI',
+            '-lead', 'trail-', '_lead', 'trail_', '-', '_', '0']
+    sts = [x for x in g.strategies if x.shortName in reachable]
+    for j, val in enumerate(pool):
+        for slot in ('ly', 'is', 'fc'):
+            if tier == 'quick' and (j + len(slot) + ord(slot[0])) % 2:
+                continue
+            st = sts[(3 * j + ord(slot[0])) % len(sts)]
+            fld = g.fields('single')
+            lib = ''.join(rng.choice(SAFE) for _ in range(rng.randint(1, 12)))
+            if slot == 'ly':
+                lib = val
+            else:
+                fld[slot] = val
+            recs, umi, umiq = g.build(st, uniform('F'), 'illumina11', fld, single_end(st))
+            if recs is None:
+                continue
+            for e in roundtrip(g, st, recs, lib, blank(st, 'illumina11', fld, lib, 'reservedword_' + slot, umi, umiq)):
+                e['uq'] = ord('F')
+                emit(e)
+
     # (2e) a sequencing index that is not in the index list (index parser configured): the pair is NOT accepted
     #      (NonMultiplexable through TaggedRecord.__init__ and the strategies' re-raise arms) - recorded, outside the statement
     for st in [x for x in g.strategies if x.shortName in reachable][::5]:
